@@ -73,5 +73,6 @@ func main() {
 			c.Infra("vacuity: template %s never occurred", need)
 		}
 	}
+	traceChains(c)
 	c.Finish()
 }
